@@ -2,6 +2,7 @@ package c18
 
 import (
 	"os"
+	"strings"
 	"testing"
 
 	"pgregory.net/rapid"
@@ -40,6 +41,28 @@ func caseGen() *rapid.Generator[Case] {
 }
 
 func TestProp(t *testing.T) { prop.Rapid(t, caseGen()) }
+
+// TestLongLines: very long lines at buffer-size boundaries (4 KiB, 64 KiB), alone, first and in the middle of a text.
+func TestLongLines(t *testing.T) {
+	var n int64
+	for _, ln := range []int{4095, 4096, 4097, 65535, 65536, 65537} {
+		for pos := 0; pos < 3; pos++ {
+			long := strings.Repeat("a", ln)
+			s := long
+			switch pos {
+			case 1:
+				s = long + "\nshort"
+			case 2:
+				s = "x\n" + long + "\ntail \u6f22"
+			}
+			n++
+			if v := prop.Eval(Case{S: gen.Str(s)}); v != nil {
+				t.Fatalf("VIOLATION %s: line of %d bytes at position %d", ID, ln, pos)
+			}
+		}
+	}
+	ev.R().Sub(ev.SubRun{Name: "long-lines", Bound: "one line of 4095/4096/4097/65535/65536/65537 bytes, alone, first, or in the middle of a text", Cases: n, Exhaustive: true})
+}
 
 func FuzzC18(f *testing.F) {
 	for _, s := range []string{"", "\n", "a\nb", "\n\n\n", "漢字\nab", "é\n​", "abc\nａｂ", "\xff\n\xc3", "\U0001f469‍\U0001f4bb\nxx"} {
